@@ -37,7 +37,9 @@ type domain struct {
 	openers []string
 	mutDict []string
 	scale   []scaleFam
-	sig     func(string) string
+	// scaleBase: the families before the prefix cross product
+	scaleBase []scaleFam
+	sig       func(string) string
 	// byteTemplates: inputs with the placeholder "\xfe\xfe" standing for one
 	// byte; instantiated with all 256 byte values
 	byteTemplates []string
@@ -79,6 +81,11 @@ func planMix(d *domain, mixes []Mix) []core.Unit {
 			us = append(us, gen.RangeUnits("utf8tpl", uint64(len(utf8Chars())), 96, "")...)
 		case "nulpad":
 			us = append(us, gen.RangeUnits("nulpad", 12*32*4, 384, "")...)
+		case "scale1":
+			// the families without the prefix cross product (d.scaleBase)
+			for i := range d.scaleBase {
+				us = append(us, core.Unit{Gen: "scale1", Lo: uint64(i), Hi: uint64(i + 1), Arg: strconv.FormatUint(m.N, 10)})
+			}
 		case "scale":
 			// N = size in bytes; one unit per family so that workers share them
 			for i := range d.scale {
@@ -237,8 +244,19 @@ func genMix(d *domain, w *core.Worker, u core.Unit, emit func(core.Case)) bool {
 		// to keep lengths, meets U+0100+b for every ASCII byte b here
 		cs := utf8Chars()
 		for i := u.Lo; i < u.Hi && i < uint64(len(cs)); i++ {
+			grows := len(strings.ToUpper(cs[i])) != len(cs[i]) || len(strings.ToLower(cs[i])) != len(cs[i])
 			for _, t := range d.byteTemplates {
 				emit(core.Case{In: strings.ReplaceAll(t, "\xfe\xfe", cs[i])})
+				if grows {
+					// characters whose upper- or lower-case form has another length, as
+					// runs (fixed-size fold buffers, offsets computed before folding)
+					for _, n := range []int{3, 7, 16, 33} {
+						emit(core.Case{In: strings.ReplaceAll(t, "\xfe\xfe", strings.Repeat(cs[i], n))})
+					}
+					// a NUL between the bytes of the character (NUL stripping before or
+					// after case folding gives different names)
+					emit(core.Case{In: strings.ReplaceAll(t, "\xfe\xfe", cs[i][:1]+"\x00"+cs[i][1:])})
+				}
 			}
 		}
 	case "nulpad":
@@ -261,6 +279,10 @@ func genMix(d *domain, w *core.Worker, u core.Unit, emit func(core.Case)) bool {
 				emit(core.Case{In: z[:k/2] + w + z[k/2:]})
 			}
 		}
+	case "scale1":
+		n, _ := strconv.Atoi(u.Arg)
+		f := d.scaleBase[u.Lo]
+		emit(core.Case{In: gen.Scale(f.prefix, f.unit, f.suffix, n), Desc: gen.ScaleDesc(f.prefix, f.unit, f.suffix, n)})
 	case "scale":
 		n, _ := strconv.Atoi(u.Arg)
 		f := d.scale[u.Lo]
